@@ -57,18 +57,20 @@ func checkC10(c *km.Ctx) {
 	var validatedUnder func(k km.Conj, fn *ssa.Function, v ssa.Value, depth int) bool
 	validatedUnder = func(k km.Conj, fn *ssa.Function, v ssa.Value, depth int) bool {
 		v = km.Unwrap(v)
-		for _, ci := range km.CallsIn(fn) {
-			cl, ok := ci.(*ssa.Call)
-			if !ok || km.CalleeFull(cl.Common()) != validate || km.Unwrap(cl.Common().Args[0]) != v {
-				continue
-			}
-			okTrue := km.Prim{Name: "strong", Direct: func(f km.Fact) bool {
-				c2, idx := callRes(f.X)
-				return f.Op == token.ILLEGAL && f.Pol && c2 == cl && idx == 0
-			}}
-			if s.Holds(k, okTrue) && s.Holds(k, primErrNilCall("validate err==nil", cl, 1)) {
-				return true
-			}
+		// ValidatePublicKeyStrength(v) returned (true, nil) on this path - called here, or inside a wrapper the
+		// value was handed to (CheckPublicKeyStrength(v) == nil)
+		isValidateOf := func(f km.Fact, resolve func(ssa.Value) ssa.Value, idx int) bool {
+			cl, i := callRes(f.X)
+			return cl != nil && i == idx && km.CalleeFull(cl.Common()) == validate && resolve(cl.Common().Args[0]) == v
+		}
+		okTrue := km.Prim{Name: "strong", Rel: func(f km.Fact, resolve func(ssa.Value) ssa.Value) bool {
+			return f.Op == token.ILLEGAL && f.Pol && isValidateOf(f, resolve, 0)
+		}}
+		errNil := km.Prim{Name: "validate err==nil", Rel: func(f km.Fact, resolve func(ssa.Value) ssa.Value) bool {
+			return f.Op == token.EQL && km.IsNilConst(f.Y) && isValidateOf(f, resolve, 1)
+		}}
+		if s.Holds(k, okTrue) && s.Holds(k, errNil) {
+			return true
 		}
 		// the value came out of a helper: every return of the helper compatible with what is known here must
 		// have validated the value it hands back
@@ -313,7 +315,18 @@ func checkWeakKeyStatus(c *km.Ctx, s *km.Sem) {
 	}
 	notStrong := func(f km.Fact) bool {
 		cl, idx := callRes(f.X)
-		return f.Op == token.ILLEGAL && !f.Pol && cl != nil && idx == 0 && km.CalleeFull(cl.Common()) == certgenPkg+".ValidatePublicKeyStrength"
+		if f.Op == token.ILLEGAL && !f.Pol && cl != nil && idx == 0 && km.CalleeFull(cl.Common()) == certgenPkg+".ValidatePublicKeyStrength" {
+			return true
+		}
+		// errors.Is(err, <weak-key sentinel of lib/certgen>) is true
+		if f.Op == token.ILLEGAL && f.Pol && cl != nil && km.CalleeFull(cl.Common()) == "errors.Is" {
+			if u, ok := km.Unwrap(cl.Common().Args[1]).(*ssa.UnOp); ok {
+				if g, ok := u.X.(*ssa.Global); ok && g.Pkg != nil && g.Pkg.Pkg.Path() == certgenPkg && strings.Contains(strings.ToLower(g.Name()), "weak") {
+					return true
+				}
+			}
+		}
+		return false
 	}
 	userErrOf := func(callee string, idx int) func(f km.Fact) bool {
 		return func(f km.Fact) bool {
@@ -321,11 +334,29 @@ func checkWeakKeyStatus(c *km.Ctx, s *km.Sem) {
 			return f.Op == token.NEQ && km.IsNilConst(f.Y) && cl != nil && i == idx && km.CalleeFull(cl.Common()) == callee
 		}
 	}
+	isConv := func(fn *ssa.Function) bool {
+		res := fn.Signature.Results()
+		return res.Len() == 3 && types.TypeString(res.At(1).Type(), nil) == "error" && types.TypeString(res.At(2).Type(), nil) == "error"
+	}
+	// a weak key seen here, or reported as a user error by a key-validating helper of the (value, userErr, err) kind
+	genericRefusal := func(f km.Fact) bool {
+		if notStrong(f) {
+			return true
+		}
+		cl, i := callRes(f.X)
+		if f.Op == token.NEQ && km.IsNilConst(f.Y) && cl != nil && i == 1 {
+			if g := km.StaticCallee(cl.Common()); g != nil && g.Blocks != nil && g.Pkg != nil && g.Pkg.Pkg.Path() == KMD && isConv(g) && reachesValidate(c, g) {
+				return true
+			}
+		}
+		return false
+	}
+	_ = userErrOf
 	for _, st := range []site{
-		{"cmd/keymasterd", "(*RuntimeState).postAuthSSHCertHandler", userErrOf(KMD+".getValidSSHPublicKey", 1), "ssh"},
-		{"cmd/keymasterd", "(*RuntimeState).postAuthX509CertHandler", notStrong, "x509"},
-		{"cmd/keymasterd", "(*RuntimeState).roleRequetingCertGenHandler", userErrOf(RS+"parseRoleCertGenParams", 1), "automation"},
-		{"cmd/keymasterd", "(*RuntimeState).refreshRoleRequestingCertGenHandler", userErrOf(RS+"parseRefreshRoleCertGenParams", 1), "automation refresh"},
+		{"cmd/keymasterd", "(*RuntimeState).postAuthSSHCertHandler", genericRefusal, "ssh"},
+		{"cmd/keymasterd", "(*RuntimeState).postAuthX509CertHandler", genericRefusal, "x509"},
+		{"cmd/keymasterd", "(*RuntimeState).roleRequetingCertGenHandler", genericRefusal, "automation"},
+		{"cmd/keymasterd", "(*RuntimeState).refreshRoleRequestingCertGenHandler", genericRefusal, "automation refresh"},
 		{"lib/server/aws_identity_cert", "(*Issuer).requestHandler", notStrong, "cloud role"},
 	} {
 		fn := c.MustFunc("R-C10-3", st.rel, st.fn)
